@@ -74,11 +74,15 @@ theorem C18_embedded_is_yaml :
     Generated.ApiFacts.specOps.map (fun e => (e.1, e.2.1, e.2.2.2)) =
       Generated.ApiFacts.yamlOps.map (fun e => (e.1, e.2.1, e.2.2.2)) := by decide
 
-/-- the gate is installed before the handlers, inside the `/v1` mount -/
+/-- the gate is installed before the handlers, inside the `/v1` mount; the only other registrations on the outer
+    router are the document, the metrics and the static files of the swagger UI; the generated handlers are
+    obtained nowhere else -/
 theorem C18_setup_pinned :
     Generated.ApiFacts.setupCalls =
       ["setupRouter:router.Use(middleware.Logger)", "setupRouter:router.Use(middleware.Recoverer)",
        "setupRouter:router.Mount(\"/v1\",http.StripPrefix(\"/v1\",srv.setupAPIRouter(swagger)))",
+       "setupRouter:router.Get(\"/api.json\")", "setupRouter:router.Mount(\"/metrics\",promhttp.Handler())",
+       "setupRouter:router.Mount(path,http.StripPrefix(path,fs))",
        "setupAPIRouter:router.Use(chimiddleware.OapiRequestValidator(swagger))",
        "setupAPIRouter:router.Use(kproapi.ConfigMiddleware(srv.config.GetEnableWriteOperations()))",
        "setupAPIRouter:kproapi.HandlerFromMux(srv,router)"] := by decide
